@@ -691,7 +691,7 @@ class Parser:
 
 def body_of(f):
     if f["body"] is None:
-        f["body"] = Parser(f["body_toks"], f["fname"]).parse_block()
+        f["body"] = desugar_with(Parser(f["body_toks"], f["fname"]).parse_block())
     return f["body"]
 
 
@@ -740,14 +740,34 @@ class Emitter:
     def __init__(self, profile, fname):
         self.p, self.fname = profile, fname
         self.tmp = 0
+        self.alias_vars = set()
 
-    @staticmethod
-    def lock_alias(st):
-        """`let [mut] g = self.<field>.lock() / .write() / .read();` -> (g, field)"""
-        if st[0] == "let" and st[1][0] == "pid" and st[3][0] == "mcall" and st[3][2] in GUARD_METHODS and not st[3][4] \
-                and is_self_field(st[3][1]):
-            return (st[1][1], st[3][1][2])
+    def lock_alias(self, st):
+        """`let [mut] g = self.<field>.lock() / .write() / .read();` -> (g, "self.<field>");
+        `let [mut] g = v.borrow_mut();` where v is itself an alias (the `&RefCell` handed to a `with` closure) -> (g, "v")"""
+        if st[0] == "let" and st[1][0] == "pid" and st[3][0] == "mcall" and st[3][2] in GUARD_METHODS and not st[3][4]:
+            r = st[3][1]
+            if is_self_field(r):
+                return (st[1][1], "self." + r[2])
+            if r[0] == "path" and len(r[1]) == 1 and r[1][0] in self.alias_vars:
+                return (st[1][1], r[1][0])
         return None
+
+    def alias_open(self, al, env):
+        """register the alias, return the `let` that introduces it"""
+        g, tgt = al
+        self.alias_vars.add(g)
+        self.p.kinds[g] = self.p.kinds.get(tgt)
+        if g not in env:
+            env.append(g)
+        init = ("self." + ident(tgt[5:])) if tgt.startswith("self.") else ident(tgt)
+        return self.let(ident(g), init)
+
+    def alias_close(self, al):
+        g, tgt = al
+        if tgt.startswith("self."):
+            return self.let("self", "{ self with " + ident(tgt[5:]) + " := " + ident(g) + " }")
+        return self.let(ident(tgt), ident(g))
 
     def fresh(self, base="t"):
         self.tmp += 1
@@ -813,8 +833,13 @@ class Emitter:
             for s in b[1]:
                 if s[0] == "let":
                     if self.lock_alias(s) is not None:
-                        add("self")
-                        self.p.kinds[self.lock_alias(s)[0]] = self.p.kinds.get("self." + self.lock_alias(s)[1])
+                        g_, tgt_ = self.lock_alias(s)
+                        if tgt_.startswith("self."):
+                            add("self")
+                        elif tgt_ not in local:
+                            add(tgt_)
+                        self.alias_vars.add(g_)
+                        self.p.kinds[g_] = self.p.kinds.get(tgt_)
                     walk_expr(s[3], local)
                     for v in self.pat_vars(s[1]):
                         local.add(v)
@@ -1053,16 +1078,15 @@ class Emitter:
         for s in b[1]:
             al = self.lock_alias(s)
             if al is not None:
-                v, fl = al
                 aliases.append(al)
-                self.p.kinds[v] = self.p.kinds.get("self." + fl)
-                env.append(v)
-                lines.append(self.let(ident(v), "self." + ident(fl)))
+                lines.append(self.alias_open(al, env))
                 continue
             lines += self.stmt(s, env)
-        wb = [self.let("self", "{ self with " + ident(fl) + " := " + ident(v) + " }") for (v, fl) in aliases]
+        wb = [self.alias_close(al) for al in reversed(aliases)]
         if aliases and result is None:
-            self.fail("a guard alias in a block that is used as a value", b)
+            if self.assigned(b, env):
+                self.fail("a guard alias in a block that is used as a value and mutates through it", b)
+            wb = []      # read-only guard
         if result is None:
             if b[2] is None:
                 final = self.wrap("()")
@@ -1814,6 +1838,8 @@ class PureProfile(BaseProfile):
         A_ = lambda i: em.expr(args[i], env)
         if name in ("iter", "clone", "to_string", "to_owned", "into_iter", "as_str", "collect", "copied", "cloned") and not args:
             return R()
+        if name in GUARD_METHODS and not args:
+            return R()          # a guard on a field / cell: the guarded value itself
         if name == "enumerate" and not args:
             return f"(RustLite.enumerate {R()})"
         if name == "position" and len(args) == 1:
@@ -1884,7 +1910,7 @@ def regenerate():
         except Exception as e:      # nothing of this file could be read: no translation, the obligations are broken
             problems.append(f"{rel}: " + (str(e) if isinstance(e, Untranslatable) else f"translator error {e!r}"))
             text = "-- translation failed: " + str(e).replace("\n", " ") + "\n"
-        h2 = hdr.replace("import Cachelito.RustLite\n", "import Cachelito.RustLite\nimport Cachelito.Generated.PureUtils\nimport Cachelito.Generated.PureEntry\nimport Cachelito.Generated.PureStats\n") if mod in ("Global", "Async") else hdr
+        h2 = hdr.replace("import Cachelito.RustLite\n", "import Cachelito.RustLite\nimport Cachelito.Generated.PureUtils\nimport Cachelito.Generated.PureEntry\nimport Cachelito.Generated.PureStats\n") if mod in ("Global", "Async", "Thread") else hdr
         write_if_changed(os.path.join(GEN_DIR, f"Pure{mod}.lean"), h2 + f"namespace {mod}\nvariable {{K V F : Type}} [DecidableEq K]\n\n" + text + f"\nend {mod}\nend Cachelito.Generated\n")
     info["problems"] = problems
     return info
@@ -1942,11 +1968,50 @@ UTIL_FILES = [
     ("Global", "cachelito-core/src/global_cache.rs", "RustLite.GlobalCache K V F",
      {"self.map": "map", "self.order": "deque", "self.frequency_weight": "optf64", "self.stats": "stats"},
      ["handle_entry_limit_eviction", "insert", "increment_frequency", "get"]),
+    ("Thread", "cachelito-core/src/thread_local_cache.rs", "RustLite.ThreadCache K V F",
+     {"self.cache": "map", "self.order": "deque", "self.frequency_weight": "optf64", "self.stats": "stats"},
+     ["move_to_end", "increment_frequency", "remove_key", "remove_key_with_order", "handle_entry_limit_eviction", "insert"]),
     ("Async", "cachelito-core/src/async_global_cache.rs", "RustLite.AsyncCache K V F",
      {"self.cache": "map", "self.order": "deque", "self.frequency_weight": "optf64", "self.stats": "stats"},
      ["find_min_frequency_key", "find_arc_eviction_key", "find_tlru_eviction_key", "is_already_key_inserted",
       "handle_entry_limit_eviction", "insert", "get"]),
 ]
+
+
+def desugar_with(node):
+    """`self.<cell>.with(|v| BODY)` (thread_local! cells) -> the block `{ let v = self.<cell>.lock(); BODY }`: inside the
+    closure `v` stands for the cell (its `borrow()` / `borrow_mut()` are guards on it).  A closure body that `return`s is
+    left alone (reported as outside the subset)."""
+    if isinstance(node, list):
+        return [desugar_with(x) for x in node]
+    if not isinstance(node, tuple):
+        return node
+    if node and node[0] == "mcall" and node[2] == "with" and len(node[4]) == 1 and node[4][0][0] == "closure" \
+            and len(node[4][0][1]) == 1 and node[4][0][1][0][0] == "pid":
+        recv = node[1]
+        clo = node[4][0]
+        v = clo[1][0][1]
+        body = desugar_with(clo[2])
+        rets = []
+
+        def find_ret(n):
+            if isinstance(n, tuple):
+                if n and n[0] == "return":
+                    rets.append(n)
+                if n and n[0] == "closure":
+                    return
+                for x in n:
+                    find_ret(x)
+            elif isinstance(n, list):
+                for x in n:
+                    find_ret(x)
+        find_ret(body)
+        if not rets and (is_self_field(recv) or (recv[0] == "path" and len(recv[1]) == 1)):
+            first = ("let", ("pid", v), None, ("mcall", recv, "lock", None, []))
+            if body[0] == "block":
+                return ("block", [first] + list(body[1]), body[2])
+            return ("block", [first], body)
+    return tuple(desugar_with(x) for x in node)
 
 
 class Cont:
@@ -2020,7 +2085,7 @@ def seq(em, stmts, env, K, sep="; "):
     aliases = []
 
     def wb():
-        return [em.let("self", "{ self with " + ident(fl) + " := " + ident(v) + " }") for (v, fl) in aliases]
+        return [em.alias_close(al) for al in reversed(aliases)]
 
     def join(parts, nested=False):
         return ("; " if nested else sep).join(p for p in parts if p)
@@ -2036,11 +2101,8 @@ def seq(em, stmts, env, K, sep="; "):
             st = stmts[i]
             al = em.lock_alias(st)
             if al is not None:
-                v, fl = al
                 aliases.append(al)
-                em.p.kinds[v] = em.p.kinds.get("self." + fl)
-                env.append(v)
-                lines.append(em.let(ident(v), "self." + ident(fl)))
+                lines.append(em.alias_open(al, env))
                 i += 1
                 continue
             if st[0] == "return":
@@ -2217,7 +2279,7 @@ def translate_utils(module, skip=()):
         if missing:
             raise Untranslatable(f"{rel}: function(s) the model transcribes are missing from the source: {', '.join(missing)}")
         # signature pass
-        table = {k: v for k, v in EXTERNAL.items() if module == "Global" or (module == "Async" and k.startswith("Stats."))}
+        table = {k: v for k, v in EXTERNAL.items() if module in ("Global", "Thread") or (module == "Async" and k.startswith("Stats."))}
         for name in wanted:
             hdr, f = byname[name]
             mut_idx = [i for i, (pn, pt) in enumerate(f["params"]) if pt.replace(" ", "").startswith("&mut")]
